@@ -91,6 +91,7 @@ def single_op_case(n, kind, v, rnd):
         for b in (0, 1):
             fresh("set o=2 pos=%d v=%d" % (p, b))
             fresh("ref_assign o=2 pos=%d v=%d" % (p, b))
+        fresh("set o=2 pos=%d" % p)                      # set(pos) / unchecked_set(pos): value defaulted
         fresh("reset o=2 pos=%d" % p)
         fresh("flip o=2 pos=%d" % p)
         fresh("ref_flip o=2 pos=%d" % p)
@@ -110,8 +111,14 @@ def single_op_case(n, kind, v, rnd):
         L.append("not o=3 src=0")
         L.append("to_ullong o=0")
         L.append("to_ulong o=0")
-        L.append("to_string o=0 cap=%d" % n)
+        L.append("to_string o=0 cap=%d" % n)                                        # to_string<N>()
+        L.append("to_string o=0 cap=%d zero=%d" % (n + 5, rnd.choice([42, 79, 200])))   # to_string<N+5>(zero)
         L.append("to_string o=0 cap=%d zero=%d one=%d" % (n + 5, rnd.choice([48, 42, 79]), rnd.choice([49, 88, 200])))
+        if n in WIDE_CT:
+            ct = CTS[v % len(CTS)]
+            z, o = CT_PAIRS[ct][v % len(CT_PAIRS[ct])]
+            L.append("to_string o=0 cap=%d ct=%s" % (n, ct))
+            L.append("to_string o=0 cap=%d zero=%d one=%d ct=%s" % (n + 5, z, o, ct))
     return L
 
 
@@ -124,29 +131,144 @@ def all_strings(maxlen, z, o):
     return out
 
 
-def str_line(o, s, pos, n, z=None, one=None, ov="sv"):
-    ln = "from_str o=%d s=%s pos=%s n=%s" % (o, fmt_list(s), pos, n)
+def str_line(o, s, pos=None, n=None, z=None, one=None, ov="sv", ct="c"):
+    """an argument that is None is NOT passed (trailing arguments only): the line carries exactly the
+    arguments of the call"""
+    ln = "from_str o=%d s=%s" % (o, fmt_list(s))
+    if pos is not None:
+        ln += " pos=%s" % pos
+    if n is not None:
+        ln += " n=%s" % n
     if z is not None:
-        ln += " zero=%d one=%d" % (z, one)
+        ln += " zero=%d" % z
+    if one is not None:
+        ln += " one=%d" % one
     if ov != "sv":
         ln += " ov=" + ov
+    if ct != "c":
+        ln += " ct=" + ct
     return ln
 
 
+def ctor_lines(L, s, zz, oo, explicit, ct="c"):
+    """every pos x every n for the string s over {zz, oo}; explicit: zero/one passed, else both defaulted
+    (then zz, oo = 48, 49); plus the shorter argument lists"""
+    z, o = (zz, oo) if explicit else (None, None)
+    for pos in range(len(s) + 1):
+        for cnt in list(range(len(s) + 2)) + ["npos"]:
+            L.append(str_line(0, s, pos, cnt, z, o, ct=ct))
+        if not explicit:
+            L.append(str_line(0, s, pos, ct=ct))                       # bitset(str, pos)
+    for cnt in list(range(len(s) + 1)) + ["npos"]:
+        L.append(str_line(1, s, None, cnt, z, o, "cstr", ct))
+    if not explicit:
+        L.append(str_line(0, s, ct=ct))                                # bitset(str)
+        L.append(str_line(1, s, ov="cstr", ct=ct))                     # bitset(cstr)
+
+
 def string_ctor_cases(n, rnd):
-    """every string up to length 4 x every pos x every n, view and pointer overloads"""
+    """every string up to length 4 (and, at N = 7, every string of length N + 1) x every pos x every n, view and
+    pointer overloads, all argument-list lengths"""
     cases = []
-    for (z, o) in ((None, None), (65, 66)):
-        zz, oo = (48, 49) if z is None else (z, o)
+    for (zz, oo, explicit) in ((48, 49, False), (65, 66, True)):
         L = ["new N=%d w=bs" % n]
         for s in all_strings(4, zz, oo):
-            for pos in range(len(s) + 1):
-                for cnt in list(range(len(s) + 2)) + ["npos"]:
-                    L.append(str_line(0, s, pos, cnt, z, o))
-            for cnt in list(range(len(s) + 1)) + ["npos"]:
-                L.append(str_line(1, s, 0, cnt, z, o, "cstr"))
+            ctor_lines(L, s, zz, oo, explicit)
         cases.append(Case(L, "str-exh/N%d" % n))
+    # only `zero` passed (one defaulted to '1'): strings over {zero, 49}
+    L = ["new N=%d w=bs" % n]
+    for s in all_strings(3, 97, 49):
+        for pos in range(len(s) + 1):
+            for cnt in (0, len(s), "npos"):
+                L.append(str_line(0, s, pos, cnt, 97))
+        L.append(str_line(1, s, None, len(s), 97, None, "cstr"))
+        L.append(str_line(1, s, None, "npos", 97, None, "cstr"))
+    cases.append(Case(L, "str-exh/N%d" % n))
+    # strings longer than the bitset: every string of length N + 1 (N <= 8), a seeded sample of N + 1 .. N + 3 beyond
+    if n in (7, 8):
+        L = ["new N=%d w=bs" % n]
+        m = n + 1
+        for v in range(1 << m):
+            s = [49 if (v >> (m - 1 - i)) & 1 else 48 for i in range(m)]
+            for pos in (0, 1, 2):
+                for cnt in (n - 1, n, m, "npos"):
+                    L.append(str_line(0, s, pos, cnt))
+            L.append(str_line(1, s, None, "npos", ov="cstr"))
+            L.append(str_line(1, s, None, m, 48, 49, "cstr"))
+        cases.append(Case(L, "str-long/N%d" % n))
+    elif n == 9:
+        L = ["new N=%d w=bs" % n]
+        for _ in range(400):
+            m = rnd.choice([n + 1, n + 2, n + 3])
+            s = [rnd.choice((48, 49)) for _ in range(m)]
+            for pos in (0, 1, rnd.randint(0, m)):
+                for cnt in (n, m, "npos"):
+                    L.append(str_line(0, s, pos, cnt))
+            L.append(str_line(1, s, None, "npos", ov="cstr"))
+        cases.append(Case(L, "str-long/N%d" % n))
     return cases
+
+
+# character types other than char (harness: instantiated at the widths WIDE_CT)
+CTS = ["w", "u8", "u16", "u32"]
+WIDE_CT = (0, 1, 9, 64, 65, 129)
+# (zero, one) pairs per character type; several differ only ABOVE the low byte / low 16 bits, so that a
+# comparison or a copy that narrows the character is visible
+CT_PAIRS = {
+    "c": [(48, 49), (65, 66), (120, 200), (49, 48)],
+    "u8": [(48, 49), (0xC3, 0xA9), (49, 48), (1, 255)],
+    "u16": [(48, 49), (0x0141, 0x0241), (0x3A9, 0x3C9), (0xFFFF, 0x00FF)],
+    "u32": [(48, 49), (0x10041, 0x20041), (0x1F600, 0x1F601), (0x41, 0x10041)],
+    "w": [(48, 49), (0x10041, 0x20041), (0x3A9, 0x103A9), (0x7FFFFFFF, 0x7FFF)],
+}
+
+
+def char_type_cases(n, rnd):
+    """string constructors / to_string for wchar_t, char8_t, char16_t, char32_t: every string up to length 3 over
+    each (zero, one) pair x every pos x every n, all argument-list lengths, then to_string in the same type"""
+    cases = []
+    for ct in CTS:
+        L = ["new N=%d w=bs" % n]
+        for (zz, oo) in CT_PAIRS[ct]:
+            explicit = (zz, oo) != (48, 49)
+            for s in all_strings(3, zz, oo):
+                ctor_lines(L, s, zz, oo, explicit, ct)
+            s = [rnd.choice((zz, oo)) for _ in range(n + 2)]
+            L.append(str_line(2, s, 0, "npos", zz, oo, ct=ct))
+            L.append(str_line(3, s, None, "npos", zz, oo, "cstr", ct))
+            L.append("eq o=2 rhs=3")
+            L.append("to_string o=2 cap=%d ct=%s" % (n, ct))
+            L.append("to_string o=2 cap=%d zero=%d ct=%s" % (n + 5, zz, ct))
+            L.append("to_string o=2 cap=%d zero=%d one=%d ct=%s" % (n + 5, zz, oo, ct))
+        cases.append(Case(L, "str-ct/N%d/%s" % (n, ct)))
+    return cases
+
+
+def zero_width_case(kind, rnd):
+    """bitset<0> / basic_bitset<0, W>: no storage word; every member without a position argument"""
+    bs = kind == "bs"
+    L = ["new N=0 w=%s" % kind]
+    for o in range(4):
+        L += ["set_all o=%d" % o, "flip_all o=%d" % o, "from_ull o=%d %s" % (o, hl(rnd.getrandbits(64))), "reset_all o=%d" % o]
+    for op in ("and", "or", "xor"):
+        L.append("%s o=0 rhs=1" % op)
+    for op in ("band", "bor", "bxor"):
+        L.append("%s o=3 a=0 b=1" % op)
+    L += ["assign o=2 src=0", "eq o=0 rhs=2", "eq o=1 rhs=3"]
+    if bs:
+        L += ["not o=3 src=0", "to_ullong o=0", "to_ulong o=3", "to_string o=0 cap=0", "to_string o=0 cap=5",
+              "to_string o=3 cap=5 zero=65 one=66", "to_string o=3 cap=0 zero=65"]
+        for s in all_strings(2, 48, 49):
+            ctor_lines(L, s, 48, 49, False)
+        for ct in CTS:
+            zz, oo = CT_PAIRS[ct][1]
+            for s in all_strings(2, zz, oo):
+                L.append(str_line(0, s, 0, "npos", zz, oo, ct=ct))
+                L.append(str_line(1, s, None, "npos", zz, oo, "cstr", ct))
+            L.append("to_string o=0 cap=0 ct=%s" % ct)
+            L.append("to_string o=1 cap=5 zero=%d one=%d ct=%s" % (zz, oo, ct))
+        L += ["flip_all o=0", "to_ullong o=0", "eq o=0 rhs=1"]
+    return L
 
 
 def rand_value(n, rnd):
@@ -165,8 +287,8 @@ def rand_value(n, rnd):
     return rnd.getrandbits(64)
 
 
-def rand_string(n, rnd):
-    z, o = rnd.choice([(48, 49), (48, 49), (65, 66), (120, 200), (49, 48)])
+def rand_string(n, rnd, ct="c"):
+    z, o = rnd.choice(CT_PAIRS[ct] + [(48, 49)])
     ln = rnd.choice([0, 1, 2, max(n - 1, 0), n, n, n + 1, n + 3, rnd.randint(0, n + 4)])
     r = rnd.random()
     if r < 0.15:
@@ -198,7 +320,9 @@ def random_history(n, kind, rnd, length):
             L.append("%s o=%d" % (rnd.choice(whole), o))
         elif r < 0.34:
             k = rnd.choice(["set", "reset", "flip", "ref_assign", "ref_flip"])
-            if k in ("set", "ref_assign"):
+            if k == "set" and rnd.random() < 0.25:
+                L.append("set o=%d pos=%d" % (o, pos()))
+            elif k in ("set", "ref_assign"):
                 L.append("%s o=%d pos=%d v=%d" % (k, o, pos(), rnd.randint(0, 1)))
             else:
                 L.append("%s o=%d pos=%d" % (k, o, pos()))
@@ -220,22 +344,34 @@ def random_history(n, kind, rnd, length):
             if r < 0.88:
                 L.append("not o=%d src=%d" % (o, obj()))
             elif r < 0.94:
-                s, z, one = rand_string(n, rnd)
+                ct = rnd.choice(["c", "c"] + CTS) if n in WIDE_CT else "c"
+                s, z, one = rand_string(n, rnd, ct)
+                # how many trailing arguments are passed; the defaulted characters need a string over {'0','1'}
+                dflt_ok = (z, one) == (48, 49)
                 if rnd.random() < 0.3:
                     cnt = rnd.choice(["npos"] + list(range(len(s) + 1)))
-                    L.append(str_line(o, s, 0, cnt, None if (z, one) == (48, 49) and rnd.random() < 0.5 else z, one, "cstr"))
+                    na = rnd.choice([1, 2, 4]) if dflt_ok else 4
+                    cnt = None if na < 2 else cnt
+                    L.append(str_line(o, s, None, cnt, z if na == 4 else None, one if na == 4 else None, "cstr", ct))
                 else:
                     p = rnd.choice([0, 0, rnd.randint(0, len(s)), len(s)])
                     cnt = rnd.choice(["npos", "npos", rnd.randint(0, len(s) + 2), n, max(len(s) - p, 0)])
-                    L.append(str_line(o, s, p, cnt, None if (z, one) == (48, 49) and rnd.random() < 0.5 else z, one))
+                    na = rnd.choice([1, 2, 3, 5, 5]) if dflt_ok else 5
+                    L.append(str_line(o, s, p if na >= 2 else None, cnt if na >= 3 else None, z if na == 5 else None,
+                                      one if na == 5 else None, "sv", ct))
             elif r < 0.97:
                 L.append("%s o=%d" % (rnd.choice(["to_ullong", "to_ulong"]), o))
             else:
-                if rnd.random() < 0.5:
-                    L.append("to_string o=%d cap=%d" % (o, rnd.choice([n, n + 5])))
+                ct = rnd.choice(["c", "c"] + CTS) if n in WIDE_CT else "c"
+                tail = "" if ct == "c" else " ct=" + ct
+                z, one = rnd.choice(CT_PAIRS[ct])
+                k = rnd.randrange(3)
+                if k == 0:
+                    L.append("to_string o=%d cap=%d%s" % (o, rnd.choice([n, n + 5]), tail))
+                elif k == 1:
+                    L.append("to_string o=%d cap=%d zero=%d%s" % (o, rnd.choice([n, n + 5]), z, tail))
                 else:
-                    L.append("to_string o=%d cap=%d zero=%d one=%d" % (o, rnd.choice([n, n + 5]), rnd.choice([48, 42, 79]),
-                                                                        rnd.choice([49, 88, 200])))
+                    L.append("to_string o=%d cap=%d zero=%d one=%d%s" % (o, rnd.choice([n, n + 5]), z, one, tail))
         else:
             L.append("%s o=%d" % (rnd.choice(whole), o))
     return L
@@ -266,10 +402,21 @@ def generate(tier, seed):
     for n in SMALL:
         for c in string_ctor_cases(n, rnd):
             add(c.lines, c.tag)
-    # 3. the known API gap: to_ulong / to_ullong on sets wider than 64 bits
+    for n in (1, 9):
+        for c in char_type_cases(n, rnd):
+            add(c.lines, c.tag)
+    # 3. to_ulong / to_ullong on sets wider than 64 bits: the value fits / does not fit (std: overflow_error; tetl:
+    #    the "value fits" contract fails), on both sides of every boundary bit
     for n in (65, 127, 128, 129):
-        add(["new N=%d w=bs" % n, "from_ull o=0 %s" % hl(rnd.getrandbits(64)), "to_ullong o=0", "to_ulong o=0",
-             "set o=0 pos=%d v=1" % (n - 1), "to_ullong o=0"], "wide-to-ullong/N%d" % n)
+        L = ["new N=%d w=bs" % n, "from_ull o=0 %s" % hl(rnd.getrandbits(64)), "to_ullong o=0", "to_ulong o=0"]
+        for p in sorted({64, 65 if n > 65 else 64, n // 2 + 32, n - 2, n - 1}):
+            L += ["set o=0 pos=%d v=1" % p, "to_ullong o=0", "to_ulong o=0", "reset o=0 pos=%d" % p, "to_ullong o=0"]
+        L += ["set o=0 pos=63 v=1", "to_ullong o=0", "flip_all o=0", "to_ulong o=0", "reset_all o=0", "to_ullong o=0",
+              "set_all o=0", "to_ullong o=0"]
+        add(L, "wide-to-ullong/N%d" % n)
+    # 3b. bitset<0>
+    for kind in KINDS:
+        add(zero_width_case(kind, rnd), "zero/N0/%s" % kind)
     # 4. random histories at every width and storage kind
     per = 1200 if thorough else 30
     for n in WIDTHS:
@@ -290,6 +437,8 @@ def nontrivial(case, rows):
     n = width_of(case)
     states = set()
     mixed = n == 1
+    if n == 0:
+        return False        # bitset<0> has a single state: executed and compared, never counted as non-trivial
     for r in rows:
         s = r.spec
         i = s.find("s=")
